@@ -554,6 +554,12 @@ func c08Batch(c *run.Ctx, kind c08Kind, vals []float32, reencode bool) []float32
 				} else if !f30(c, in, out) {
 					c.Violate("angle-30bit-rule", detail(i, in, out, w, ""))
 				}
+			case g == 0:
+				// a whole number of turns is no rotation: the 1-byte zero
+				if out != 0 || w != 1 {
+					c.Violate("angle-whole-turns-not-the-one-byte-zero", detail(i, in, out, w, ""))
+				}
+				c.Count("angle_whole_turns", 1)
 			default:
 				d := math.Abs(float64(out) - g)
 				if !(d <= math.Ldexp(1, -20) || d >= 1-math.Ldexp(1, -20)) || !(out >= 0 && out <= 1) {
